@@ -41,3 +41,31 @@ fn main() {
 		}
 	}
 }
+
+/// Counting global allocator: lets the `de-alloc` stream observe heap allocations made while
+/// a datum is deserialized from a slice (C04: "the slice path performs no heap allocation of its
+/// own on success").
+pub mod alloc_count {
+	use std::alloc::{GlobalAlloc, Layout, System};
+	use std::sync::atomic::{AtomicUsize, Ordering};
+	pub static ALLOCS: AtomicUsize = AtomicUsize::new(0);
+	pub struct Counting;
+	unsafe impl GlobalAlloc for Counting {
+		unsafe fn alloc(&self, l: Layout) -> *mut u8 {
+			ALLOCS.fetch_add(1, Ordering::Relaxed);
+			System.alloc(l)
+		}
+		unsafe fn dealloc(&self, p: *mut u8, l: Layout) {
+			System.dealloc(p, l)
+		}
+		unsafe fn realloc(&self, p: *mut u8, l: Layout, n: usize) -> *mut u8 {
+			ALLOCS.fetch_add(1, Ordering::Relaxed);
+			System.realloc(p, l, n)
+		}
+	}
+	pub fn count() -> usize {
+		ALLOCS.load(Ordering::Relaxed)
+	}
+}
+#[global_allocator]
+static GLOBAL: alloc_count::Counting = alloc_count::Counting;
